@@ -4,6 +4,7 @@ import PqModel.Lz4Encode
 import PqModel.Spec.BlockCodecs
 import PqModel.Spec.Inflate
 import PqModel.Spec.InflateFixed
+import PqModel.Spec.InflateMatch
 
 /-! C20 ops: run the pool model of compress/compress.go over a history with the toy stream
 family plugged in (the Go side plugs the same toy streams into the real
